@@ -712,6 +712,8 @@ func (r *runner) entriesFor(bi *baseInfo, eds []edit, level string) []entry {
 		out = append(out, eText)
 	case level == "pair":
 		out = append(out, eText)
+	case level == "mid":
+		out = append(out, eText, eMarkdown, eChunks, apiEntry)
 	case level == "pairnum": // two numeric attributes of one XML/HTML element: the three output paths
 		out = append(out, eText, eMarkdown, eChunks)
 	}
@@ -780,6 +782,17 @@ func (r *runner) exec(bi *baseInfo, eds []edit, entries []entry) {
 			k = "count_" + bi.b.name + "_pairs"
 		}
 		e.Add(k, int64(len(entries)))
+		cls := "none"
+		if len(eds) > 0 {
+			cls = strings.SplitN(eds[0].class, ":", 2)[0]
+			if eds[0].op != "" {
+				cls = eds[0].op
+			}
+		}
+		if len(eds) == 2 {
+			cls += "+" + strings.SplitN(eds[1].class, ":", 2)[0]
+		}
+		e.Add("cls_"+bi.b.kind+"_"+cls, int64(len(entries)))
 		return
 	}
 	for _, ent := range entries {
